@@ -37,7 +37,8 @@ RULE = ('each run = 10-25 spend attempts on delegate-key and delegate-key-chain 
         'attack, window class, slack class, clock fault, verdict)')
 ATTACKS = ['none', 'none', 'flip_key', 'flip_begin', 'flip_end', 'flip_can', 'flip_sig',
            'flip_final_sig', 'splice', 'drop', 'dup', 'swap', 'nodelegate', 'wrong_signer',
-           'cross_lock', 'bad_flag', 'replay_after_expiry', 'flip_marker', 'foreign_witness']
+           'cross_lock', 'bad_flag', 'replay_after_expiry', 'flip_marker', 'foreign_witness',
+           'crafted', 'crafted']
 WINS = ['begin-1', 'begin', 'end-1', 'end', 'end+1', 'mid']
 SLK = ['ok', 'eq', 'minus1']
 CF = ['none', 'step_back_between', 'other']
@@ -49,7 +50,7 @@ REQUIRED_PROBES = ['t==begin', 't==end-1', 't==end'] + \
      'replay_after_expiry', 'cross_lock_witness', 'cert_roundtrip',
      'honest_accept_single', 'honest_accept_chain', 'threshold_per_call',
      'second_hierarchy', 'foreign_witness_verified_under_own_root_first',
-     'default_timestamp']
+     'default_timestamp', 'crafted_witness']
 NAMES = ['K', 'Kp'] + ['D%d' % i for i in range(1, 7)] + ['F%d' % i for i in range(1, 7)]
 FIELD_RANGE = {'key': (0, 32), 'begin': (32, 36), 'end': (36, 40), 'can': (40, 41),
                'sig': (41, 105)}
@@ -141,6 +142,11 @@ def gen_step(rng, cell, clocks, vname, at_us, thr, fault_free):
         step['attack'] = {'kind': 'splice', 'cert': rng.below(ln)}
     elif a == 'foreign_witness':
         step['attack'] = {'kind': 'foreign_witness'}
+    elif a == 'crafted':
+        # the attacker does not tamper with a builder's witness but composes one of his
+        # own from observed material: valid certificates, the signature, markers, junk
+        step['attack'] = {'kind': 'crafted', 'picks': [rng.below(64) for _ in range(rng.rng(1, 6))],
+                          'root_cert_on_top': rng.chance(2, 3)}
     elif a in ('drop', 'dup') and lock == 'chain':
         step['attack'] = {'kind': a, 'cert': rng.below(ln)}
     elif a == 'swap' and lock == 'chain' and ln >= 2:
@@ -505,6 +511,18 @@ def attack(items, atk, step, keys, run):
                                           c['begin'], c['end'], c['can']).pack()
         items[cert_pos(j if chainw else 0)] = forged
         run.probe('splice')
+    elif k == 'crafted':
+        sig = items[0]
+        certs = [it for it in items if len(it) == 105]
+        pool = certs + [sig, b'\xff', b'\x00', b'\xff', b'j', b'junk' * 16, b'\x07' * 105,
+                        sig[:64], certs[-1][:104] if certs else b'x']
+        crafted = [pool[p % len(pool)] for p in atk['picks']]
+        if atk.get('root_cert_on_top') and certs:
+            # the certificate issued by the root is the last 105-byte item of a
+            # builder witness: with it on top the first frame of the lock passes
+            crafted.append(certs[-1])
+        items = crafted
+        run.probe('crafted_witness')
     elif k == 'foreign_witness':
         oroot, opre = ('Kp', 'F') if step.get('root', 'K') == 'K' else ('K', 'D')
         sf = {kk: bytes.fromhex(v) for kk, v in step['sigfields'].items()}
